@@ -109,6 +109,7 @@ func mainCheck(args []string) (code int) {
 		return 1
 	}
 	c := NewCtx(p, *prop, *tier)
+	c.verif = *verif
 	which := map[string]bool{}
 	for _, r := range ruleIDs {
 		which[r] = true
@@ -197,6 +198,9 @@ func mainCheck(args []string) (code int) {
 				"functions_in_root": len(c.funcs),
 				"tests_loaded":      p.WithTest,
 			}}
+		for k, v := range c.Extras {
+			m.Extra[k] = v
+		}
 		if err := c.S.WriteEvidence(filepath.Join(*verif, "evidence", *prop+".json"), m); err != nil {
 			fmt.Fprintln(os.Stderr, "mqttverif: evidence:", err)
 			return 2
@@ -223,6 +227,17 @@ func sortedKeys(m map[string]bool) []string {
 	return out
 }
 
-func (c *Ctx) thoroughExtras(which map[string]bool) {}
-
-func mainSelftest(args []string) int { return 2 }
+func (c *Ctx) thoroughExtras(which map[string]bool) {
+	// selftest: every variant recorded for this property must make the check fire
+	res, err := RunSelftest(c.S.Property, c.P.Dir, c.verif, 8)
+	if err != nil {
+		c.S.Unknown("SELFTEST", "SELFTEST|load", "", "", err.Error())
+		return
+	}
+	c.Extras["selftest"] = summarise(res)
+	var lines []string
+	for _, r := range res {
+		lines = append(lines, r.Status+" "+r.Case.ID)
+	}
+	c.Extras["selftest_variants"] = lines
+}
